@@ -292,7 +292,24 @@ func (cg *caseGen) lrGrammar() {
 	var rules []*pvcase.Rule
 	wrap := cg.chance(0.5)
 	topName := "E"
-	switch shape := cg.r.IntN(10); {
+	switch shape := cg.r.IntN(11); {
+	case shape == 10 && cg.f.act:
+		// discarded growth attempt, then the same operand again: S <- E (op X)* !. ; E <- E op X closer / X ;
+		// X <- operand {error}. The last "op X" without the closer is matched inside a growth attempt that is thrown
+		// away (with the error X's action recorded) and then again, at the same position, by the loop of S: the
+		// error must be reported (it was rolled back with the attempt, so it is new).
+		op, closer := cg.litOf(pickStr(cg.r, []string{"+", "-", "*", "_"})), cg.litOf(";")
+		x := un(pvcase.KAct, cg.operand())
+		cg.dupActs = append(cg.dupActs, x)
+		cg.cur = 1
+		ch := cg.newChoice()
+		ch.Kids = []*pvcase.Expr{cg.maybeAct(seqOf(refTo("E"), op, refTo("X"), closer)), refTo("X")}
+		s := seqOf(refTo("E"), un(pvcase.KStar, seqOf(op.Clone(), refTo("X"))), un(pvcase.KNot, &pvcase.Expr{Kind: pvcase.KAny}))
+		rules = append(rules,
+			&pvcase.Rule{Name: "S", Expr: cg.maybeAct(s)},
+			&pvcase.Rule{Name: "E", Leader: true, LeftRecursive: true, Expr: ch},
+			&pvcase.Rule{Name: "X", Expr: x})
+		wrap = false
 	case shape < 4: // direct: A <- A op T / ... / T
 		cg.cur = 1
 		ch := cg.newChoice()
@@ -641,6 +658,7 @@ func (g *generator) genCase(prof string) ([]*pvcase.Case, *caseGen) {
 
 	// ---- grammar
 	for attempt := 0; ; attempt++ {
+		cg.dupActs = nil
 		switch {
 		case prof == "lr":
 			cg.lrGrammar()
@@ -664,7 +682,6 @@ func (g *generator) genCase(prof string) ([]*pvcase.Case, *caseGen) {
 				cg.rules[0].Expr = e
 			}
 		}
-		cg.dupActs = nil
 		if prof != "lr" && !divergent && cg.f.act && cg.f.errP > 0 && len(cg.rules) >= 2 && cg.chance(0.12) {
 			cg.dupErrShape()
 		}
